@@ -118,6 +118,19 @@ Proof. unfold same_but_children. simpl. tauto. Qed.
 Lemma sbc_trans a b c : same_but_children a b -> same_but_children b c -> same_but_children a c.
 Proof. unfold same_but_children. intuition congruence. Qed.
 
+(* the fields a removal condition may depend on *)
+Definition core_eq (a b : inst) : Prop :=
+  i_flow a = i_flow b /\ i_status a = i_status b /\ i_updated a = i_updated b /\ i_activated a = i_activated b /\
+  i_parent a = i_parent b.
+
+Definition core_pred (P : string -> inst -> bool) : Prop := forall u a b, core_eq a b -> P u a = P u b.
+
+Lemma sbc_core a b : same_but_children a b -> core_eq a b.
+Proof. unfold same_but_children, core_eq. tauto. Qed.
+
+Lemma clear_core a : core_eq (clear_heads a) a.
+Proof. unfold core_eq. simpl. tauto. Qed.
+
 Lemma sbc_removable c now a b : same_but_children a b -> removable c now a = removable c now b.
 Proof.
   intros (H1 & H2 & H3 & H4 & _). unfold removable, is_done, old_enough. now rewrite H2, H3, H4.
@@ -400,9 +413,9 @@ Definition frame_rel (gone : string -> Prop) (i i' : inst) : Prop :=
   frame_core gone i i' /\ scopes_rel gone i i'.
 
 (* steps 1-3 and 4 (without step 3b) *)
-Definition cleanup0 (c : cfg) (now : Z) (s : state) : option state :=
+Definition cleanup0 (P : string -> inst -> bool) (s : state) : option state :=
   let s1 := clear_scores s in
-  match fold_left remove_one (to_remove c now s1) (Some s1) with
+  match fold_left remove_one (to_remove_gen P s1) (Some s1) with
   | None => None
   | Some s2 =>
     match rebuild_actions (actions s2) (all_action_uids s2) [] with
@@ -412,14 +425,14 @@ Definition cleanup0 (c : cfg) (now : Z) (s : state) : option state :=
   end.
 
 Section Theorems0.
-  Variable c : cfg.
-  Variable now : Z.
+  Variable P : string -> inst -> bool.
+  Hypothesis HP : core_pred P.
   Variable s s' : state.
   Hypothesis Hdict : NoDup (map fst (flows s)).          (* flow_states is a dict *)
-  Hypothesis Hrun : cleanup0 c now s = Some s'.
+  Hypothesis Hrun : cleanup0 P s = Some s'.
 
   Let F1 := map (fun kv => (fst kv, clear_heads (snd kv))) (flows s).
-  Let rem := to_remove c now (clear_scores s).
+  Let rem := to_remove_gen P (clear_scores s).
 
   Lemma F1_keys : map fst F1 = map fst (flows s).
   Proof. unfold F1. rewrite map_map. reflexivity. Qed.
@@ -436,14 +449,15 @@ Section Theorems0.
     change rem with ([] ++ rem)%list. eapply linv_fold; [|exact E]. apply linv_init.
   Qed.
 
-  Lemma rem_spec u : In u rem <-> exists i, slook (flows s) u = Some i /\ removable c now i = true.
+  Lemma rem_spec u : In u rem <-> exists i, slook (flows s) u = Some i /\ P u i = true.
   Proof.
-    unfold rem, to_remove. simpl. fold F1. rewrite in_map_iff. split.
+    unfold rem, to_remove_gen. simpl. fold F1. rewrite in_map_iff. split.
     - intros ([u' i1] & <- & Hf). apply filter_In in Hf as [Hi Hr]. simpl in *.
       unfold F1 in Hi. apply in_map_iff in Hi as ([u2 i] & Heq & Hi). inversion Heq; subst.
-      exists i. split; [apply in_slook; auto|]. simpl. exact Hr.
-    - intros (i & Hi & Hr). exists (u, clear_heads i). split; [reflexivity|]. apply filter_In. split; [|exact Hr].
-      unfold F1. apply in_map_iff. exists (u, i). split; [reflexivity|now apply slook_in].
+      exists i. split; [apply in_slook; auto|]. simpl. rewrite <- (HP _ _ _ (clear_core i)). exact Hr.
+    - intros (i & Hi & Hr). exists (u, clear_heads i). split; [reflexivity|]. apply filter_In. split.
+      + unfold F1. apply in_map_iff. exists (u, i). split; [reflexivity|now apply slook_in].
+      + simpl. rewrite (HP u _ _ (clear_core i)). exact Hr.
   Qed.
 
   Lemma F1_look u : slook F1 u = option_map clear_heads (slook (flows s) u).
@@ -451,12 +465,12 @@ Section Theorems0.
 
   (* only done, non-activated, old instances are removed; only unreferenced actions are removed *)
   Theorem cleanup0_only_done :
-    (forall u i, slook (flows s) u = Some i -> slook (flows s') u = None -> removable c now i = true) /\
+    (forall u i, slook (flows s) u = Some i -> slook (flows s') u = None -> P u i = true) /\
     (forall a x, slook (actions s) a = Some x -> slook (actions s') a = None ->
                  forall u i, In (u, i) (flows s') -> ~ In a (i_actions i)).
   Proof.
     destruct cleanup_inv as (s2 & HI & Hf & Hb & Hr & Ha). split.
-    - intros u i Hi Hn. destruct (removable c now i) eqn:E; [reflexivity|]. exfalso.
+    - intros u i Hi Hn. destruct (P u i) eqn:E; [reflexivity|]. exfalso.
       assert (Hnr : ~ In u rem).
       { intro H. apply rem_spec in H as (i2 & H1 & H2). rewrite Hi in H1. inversion H1; subst. congruence. }
       destruct (li_keep _ _ _ _ _ _ HI u (clear_heads i)) as (i2 & H2); [rewrite F1_look, Hi; reflexivity|exact Hnr|].
@@ -471,11 +485,11 @@ Section Theorems0.
   (* frame: everything else is unchanged *)
   Theorem cleanup0_frame :
     s_rest s' = s_rest s /\
-    (forall u i, slook (flows s) u = Some i -> removable c now i = false ->
+    (forall u i, slook (flows s) u = Some i -> P u i = false ->
                  exists i', slook (flows s') u = Some i' /\ frame_core (fun x => slook (flows s') x = None) i i' /\
                            i_scopes i' = i_scopes i) /\
     (forall u i', slook (flows s') u = Some i' ->
-                  exists i, slook (flows s) u = Some i /\ removable c now i = false) /\
+                  exists i, slook (flows s) u = Some i /\ P u i = false) /\
     (forall a x, slook (actions s') a = Some x -> slook (actions s) a = Some x) /\
     (forall u i a, In (u, i) (flows s') -> In a (i_actions i) -> slook (actions s') a <> None) /\
     (forall f l', slook (by_flow s') f = Some l' ->
@@ -504,7 +518,7 @@ Section Theorems0.
     - intros u i' Hi'. rewrite Hf in Hi'.
       destruct (li_look _ _ _ _ _ _ HI u i' Hi') as (i0 & H3 & H4 & _).
       rewrite F1_look in H3. destruct (slook (flows s) u) as [i|] eqn:Hi; [|discriminate]. simpl in H3. inversion H3; subst i0.
-      exists i. split; [reflexivity|]. destruct (removable c now i) eqn:E; [|reflexivity]. exfalso.
+      exists i. split; [reflexivity|]. destruct (P u i) eqn:E; [|reflexivity]. exfalso.
       apply slook_in in Hi'. destruct (li_in _ _ _ _ _ _ HI u i' Hi') as (Hn & _). apply Hn.
       apply rem_spec. eauto.
     - exact A1.
@@ -516,7 +530,7 @@ Section Theorems0.
 
   (* a second clean-up at the same clock value changes nothing *)
   Lemma cleanup0_fix_facts :
-    clear_scores s' = s' /\ to_remove c now s' = [] /\
+    clear_scores s' = s' /\ to_remove_gen P s' = [] /\
     rebuild_actions (actions s') (all_action_uids s') [] = Some (actions s').
   Proof.
     destruct cleanup_inv as (s2 & HI & Hf & Hb & Hr & Ha).
@@ -528,14 +542,14 @@ Section Theorems0.
       destruct H2 as (_ & _ & _ & _ & _ & _ & E7 & _). simpl in E7.
       unfold clear_heads. destruct i; simpl in *. f_equal. rewrite <- E7. rewrite map_map. simpl.
       clear. induction (i_heads i1) as [|[a b] r IH]; simpl; [reflexivity|now f_equal]. }
-    assert (Hno : to_remove c now s' = []).
-    { unfold to_remove. rewrite filter_none; [reflexivity|].
+    assert (Hno : to_remove_gen P s' = []).
+    { unfold to_remove_gen. rewrite filter_none; [reflexivity|].
       intros [u i] Hi. simpl. rewrite Hf in Hi.
       destruct (li_in _ _ _ _ _ _ HI u i Hi) as (Hn & i0 & H1 & H2 & _).
-      destruct (removable c now i) eqn:E; [|reflexivity]. exfalso. apply Hn. simpl.
+      destruct (P u i) eqn:E; [|reflexivity]. exfalso. apply Hn. simpl.
       unfold F1 in H1. apply in_map_iff in H1 as ([u1 i1] & Heq & Hi1). inversion Heq; subst.
       apply rem_spec. exists i1. split; [apply in_slook; auto|].
-      rewrite <- (clear_heads_removable c now i1). rewrite (sbc_removable c now _ _ H2). exact E. }
+      rewrite <- (HP _ _ _ (clear_core i1)). rewrite (HP _ _ _ (sbc_core _ _ H2)). exact E. }
     split; [exact Hcl|]. split; [exact Hno|].
     assert (Hu : all_action_uids s' = all_action_uids s2) by (unfold all_action_uids; now rewrite Hf).
     rewrite Hu. exact (rebuild_idem _ _ _ _ Ha).
@@ -555,7 +569,7 @@ Section Theorems0.
   Lemma cleanup0_by_gone :
     (forall f l, slook (by_flow s) f = Some l -> NoDup l) ->
     forall f l', slook (by_flow s') f = Some l' ->
-      NoDup l' /\ forall x i, slook (flows s) x = Some i -> removable c now i = true -> i_flow i = f -> ~ In x l'.
+      NoDup l' /\ forall x i, slook (flows s) x = Some i -> P x i = true -> i_flow i = f -> ~ In x l'.
   Proof.
     intros Hnd f l' Hl'.
     unfold cleanup0 in Hrun. fold rem in Hrun.
@@ -609,15 +623,15 @@ Lemma slook_scopes_purge rem (sc : list (string * list string)) k :
   slook (map (fun kl => (fst kl, keep_uids rem (snd kl))) sc) k = option_map (keep_uids rem) (slook sc k).
 Proof. apply (slook_map_snd (keep_uids rem)). Qed.
 
-Lemma cleanup_split c now s :
-  cleanup c now s =
-  match cleanup0 c now s with
+Lemma cleanup_split c P s :
+  cleanup_gen c P s =
+  match cleanup0 P s with
   | None => None
-  | Some s0 => Some (mkState (purge_flows c (to_remove c now (clear_scores s)) (flows s0)) (by_flow s0) (actions s0) (s_rest s0))
+  | Some s0 => Some (mkState (purge_flows c (to_remove_gen P (clear_scores s)) (flows s0)) (by_flow s0) (actions s0) (s_rest s0))
   end.
 Proof.
-  unfold cleanup, cleanup0.
-  destruct (fold_left remove_one (to_remove c now (clear_scores s)) (Some (clear_scores s))) as [s2|]; [|reflexivity].
+  unfold cleanup_gen, cleanup0.
+  destruct (fold_left remove_one (to_remove_gen P (clear_scores s)) (Some (clear_scores s))) as [s2|]; [|reflexivity].
   destruct (rebuild_actions (actions s2) (all_action_uids s2) []); reflexivity.
 Qed.
 
@@ -628,18 +642,19 @@ Proof. unfold purge_flows. induction l as [|[k x] r IH]; simpl; [reflexivity|now
 
 Section Theorems.
   Variable c : cfg.
-  Variable now : Z.
+  Variable P : string -> inst -> bool.
+  Hypothesis HP : core_pred P.
   Variable s s' : state.
   Hypothesis Hdict : NoDup (map fst (flows s)).          (* flow_states is a dict *)
-  Hypothesis Hrun : cleanup c now s = Some s'.
+  Hypothesis Hrun : cleanup_gen c P s = Some s'.
 
-  Let rem := to_remove c now (clear_scores s).
+  Let rem := to_remove_gen P (clear_scores s).
 
   Lemma cleanup_via0 :
-    exists s0, cleanup0 c now s = Some s0 /\ flows s' = purge_flows c rem (flows s0) /\
+    exists s0, cleanup0 P s = Some s0 /\ flows s' = purge_flows c rem (flows s0) /\
                by_flow s' = by_flow s0 /\ actions s' = actions s0 /\ s_rest s' = s_rest s0.
   Proof.
-    rewrite cleanup_split in Hrun. destruct (cleanup0 c now s) as [s0|]; [|discriminate].
+    rewrite cleanup_split in Hrun. destruct (cleanup0 P s) as [s0|]; [|discriminate].
     inversion Hrun; subst s'. exists s0. simpl. auto.
   Qed.
 
@@ -648,12 +663,12 @@ Section Theorems.
   Proof. intros ->. rewrite slook_purge. destruct (slook (flows s0) u); simpl; split; congruence. Qed.
 
   Theorem cleanup_only_done :
-    (forall u i, slook (flows s) u = Some i -> slook (flows s') u = None -> removable c now i = true) /\
+    (forall u i, slook (flows s) u = Some i -> slook (flows s') u = None -> P u i = true) /\
     (forall a x, slook (actions s) a = Some x -> slook (actions s') a = None ->
                  forall u i, In (u, i) (flows s') -> ~ In a (i_actions i)).
   Proof.
     destruct cleanup_via0 as (s0 & H0 & Hf & Hb & Ha & Hr).
-    destruct (cleanup0_only_done c now s s0 Hdict H0) as [P1 P2]. split.
+    destruct (cleanup0_only_done P HP s s0 Hdict H0) as [P1 P2]. split.
     - intros u i Hi Hn. apply (P1 u i Hi). now apply (look_none u s0 Hf).
     - intros a x Hx Hn u i Hi. rewrite Hf in Hi. apply in_purge in Hi as (i0 & Hi0 & ->). simpl.
       rewrite Ha in Hn. exact (P2 a x Hx Hn u i0 Hi0).
@@ -661,10 +676,10 @@ Section Theorems.
 
   Theorem cleanup_frame :
     s_rest s' = s_rest s /\
-    (forall u i, slook (flows s) u = Some i -> removable c now i = false ->
+    (forall u i, slook (flows s) u = Some i -> P u i = false ->
                  exists i', slook (flows s') u = Some i' /\ frame_rel (fun x => slook (flows s') x = None) i i') /\
     (forall u i', slook (flows s') u = Some i' ->
-                  exists i, slook (flows s) u = Some i /\ removable c now i = false) /\
+                  exists i, slook (flows s) u = Some i /\ P u i = false) /\
     (forall a x, slook (actions s') a = Some x -> slook (actions s) a = Some x) /\
     (forall u i a, In (u, i) (flows s') -> In a (i_actions i) -> slook (actions s') a <> None) /\
     (forall f l', slook (by_flow s') f = Some l' ->
@@ -673,13 +688,13 @@ Section Theorems.
     (forall f l, slook (by_flow s) f = Some l -> exists l', slook (by_flow s') f = Some l').
   Proof.
     destruct cleanup_via0 as (s0 & H0 & Hf & Hb & Ha & Hr).
-    destruct (cleanup0_frame c now s s0 Hdict H0) as (F0 & F1 & F2 & F3 & F4 & F5 & F6).
+    destruct (cleanup0_frame P HP s s0 Hdict H0) as (F0 & F1 & F2 & F3 & F4 & F5 & F6).
     assert (Hg : forall x, slook (flows s0) x = None -> slook (flows s') x = None)
       by (intros x; apply (look_none x s0 Hf)).
     assert (Hrem : forall x, In x rem -> slook (flows s') x = None).
     { intros x Hx. apply Hg. destruct (slook (flows s0) x) as [i'|] eqn:E; [|reflexivity]. exfalso.
       destruct (F2 x i' E) as (i & Hi & Hnr).
-      apply (rem_spec c now s Hdict) in Hx as (i2 & Hi2 & Hr2). rewrite Hi in Hi2. inversion Hi2; subst. congruence. }
+      apply (rem_spec P HP s Hdict) in Hx as (i2 & Hi2 & Hr2). rewrite Hi in Hi2. inversion Hi2; subst. congruence. }
     split; [congruence|]. split; [|split; [|split; [|split; [|split]]]].
     - intros u i Hi Hnr. destruct (F1 u i Hi Hnr) as (i0 & Hi0 & Hc & Hsc).
       exists (purge_inst c rem i0). split; [rewrite Hf, slook_purge, Hi0; reflexivity|].
@@ -713,21 +728,22 @@ Section Theorems.
   Qed.
 
   (* a second clean-up at the same clock value changes nothing *)
-  Theorem cleanup_idempotent : cleanup c now s' = Some s'.
+  Theorem cleanup_idempotent : cleanup_gen c P s' = Some s'.
   Proof.
     destruct cleanup_via0 as (s0 & H0 & Hf & Hb & Ha & Hr).
-    destruct (cleanup0_fix_facts c now s s0 Hdict H0) as (Hcl & Hno & Hre).
+    destruct (cleanup0_fix_facts P HP s s0 Hdict H0) as (Hcl & Hno & Hre).
     assert (Hcl' : clear_scores s' = s').
     { unfold clear_scores in *. destruct s' as [fl bf ac rs], s0 as [fl0 bf0 ac0 rs0]. simpl in *. f_equal.
       inversion Hcl as [Hm]. subst fl. unfold purge_flows. rewrite map_map. simpl.
       rewrite <- Hm at 2. rewrite map_map. simpl. apply map_ext. intros [u i]. reflexivity. }
-    assert (Hno' : to_remove c now s' = []).
-    { unfold to_remove in *. rewrite filter_none; [reflexivity|]. intros [u i] Hi. simpl.
+    assert (Hno' : to_remove_gen P s' = []).
+    { unfold to_remove_gen in *. rewrite filter_none; [reflexivity|]. intros [u i] Hi. simpl.
       rewrite Hf in Hi. apply in_purge in Hi as (i0 & Hi0 & ->).
-      change (removable c now (purge_inst c rem i0)) with (removable c now i0).
-      destruct (removable c now i0) eqn:E; [|reflexivity]. exfalso.
-      assert (In (u, i0) (filter (fun kv => removable c now (snd kv)) (flows s0))) by (apply filter_In; auto).
-      destruct (filter (fun kv => removable c now (snd kv)) (flows s0)); [contradiction|discriminate]. }
+      assert (Hce : core_eq (purge_inst c rem i0) i0) by (unfold core_eq; simpl; tauto).
+      rewrite (HP u _ _ Hce).
+      destruct (P u i0) eqn:E; [|reflexivity]. exfalso.
+      assert (In (u, i0) (filter (fun kv => P (fst kv) (snd kv)) (flows s0))) by (apply filter_In; auto).
+      destruct (filter (fun kv => P (fst kv) (snd kv)) (flows s0)); [contradiction|discriminate]. }
     rewrite cleanup_split. unfold cleanup0. rewrite Hcl', Hno'. simpl.
     assert (Hu : all_action_uids s' = all_action_uids s0).
     { unfold all_action_uids. rewrite Hf. apply actions_purge. }
@@ -740,7 +756,7 @@ Section Theorems.
     slook (actions s') a = Some x -> exists u i, In (u, i) (flows s') /\ In a (i_actions i).
   Proof.
     destruct cleanup_via0 as (s0 & H0 & Hf & Hb & Ha & Hr). rewrite Ha. intro Hx.
-    destruct (cleanup0_actions_ref c now s s0 H0 a x Hx) as (u & i & Hin & Hia).
+    destruct (cleanup0_actions_ref P s s0 H0 a x Hx) as (u & i & Hin & Hia).
     exists u, (purge_inst c rem i). split; [|exact Hia].
     rewrite Hf. unfold purge_flows. apply in_map_iff. exists (u, i). auto.
   Qed.
@@ -764,8 +780,8 @@ Section Theorems.
     slook (flows s) x = Some ix -> ~ In x rem -> slook (flows s') x <> None.
   Proof.
     intros Hx Hn. destruct cleanup_frame as (_ & Fr & _).
-    destruct (removable c now ix) eqn:E.
-    - exfalso. apply Hn. apply (rem_spec c now s Hdict). eauto.
+    destruct (P x ix) eqn:E.
+    - exfalso. apply Hn. apply (rem_spec P HP s Hdict). eauto.
     - destruct (Fr x ix Hx E) as (i' & Hi' & _). congruence.
   Qed.
 
@@ -781,22 +797,22 @@ Section Theorems.
       rewrite Hi' in Hi2. inversion Hi2; subst i2.
       specialize (C1 u i x Hi (Hsub x Hx)). unfold present in *.
       destruct (slook (flows s) x) as [ix|] eqn:Ex; [|congruence].
-      eapply not_rem_present; eauto. destruct (cleanup_purged u i' Hi') as [P _]. exact (P Pc x Hx).
+      eapply not_rem_present; eauto. destruct (cleanup_purged u i' Hi') as [Pg _]. exact (Pg Pc x Hx).
     - intros u i' k l x Hi' Hl Hx. destruct (Fb u i' Hi') as (i & Hi & Hnr).
       destruct (Fr u i Hi Hnr) as (i2 & Hi2 & (_ & (_ & Hsc))).
       rewrite Hi' in Hi2. inversion Hi2; subst i2.
       destruct (Hsc k l Hl) as (l0 & Hl0 & Hsub & _).
       specialize (C2 u i k l0 x Hi Hl0 (Hsub x Hx)). unfold present in *.
       destruct (slook (flows s) x) as [ix|] eqn:Ex; [|congruence].
-      eapply not_rem_present; eauto. destruct (cleanup_purged u i' Hi') as [_ P]. exact (P Ps k l x Hl Hx).
+      eapply not_rem_present; eauto. destruct (cleanup_purged u i' Hi') as [_ Pg]. exact (Pg Ps k l x Hl Hx).
     - intros u i' a Hi' Ha. exact (Fra u i' a (slook_in _ _ _ Hi') Ha).
     - intros f l' Hl'. destruct (Fby f l' Hl') as (l & Hl & Hsub & _).
       destruct (C4 f l Hl) as [Hnd Hmem].
       destruct cleanup_via0 as (s0 & H0 & Hf & Hb & Ha & Hr).
       assert (HndAll : forall f0 l0, slook (by_flow s) f0 = Some l0 -> NoDup l0) by (intros f0 l0 H; exact (proj1 (C4 f0 l0 H))).
-      rewrite Hb in Hl'. destruct (cleanup0_by_gone c now s s0 Hdict H0 HndAll f l' Hl') as [N G].
+      rewrite Hb in Hl'. destruct (cleanup0_by_gone P HP s s0 Hdict H0 HndAll f l' Hl') as [N G].
       split; [exact N|]. intros u Hu. destruct (Hmem u (Hsub u Hu)) as (i & Hi & Hfl).
-      destruct (removable c now i) eqn:E; [exfalso; exact (G u i Hi E Hfl Hu)|].
+      destruct (P u i) eqn:E; [exfalso; exact (G u i Hi E Hfl Hu)|].
       destruct (Fr u i Hi E) as (i' & Hi' & ((Efl & _) & _)). exists i'. split; [exact Hi'|congruence].
   Qed.
 
@@ -809,7 +825,7 @@ Section Theorems.
       (forall x, In x (i_children i') ->
          exists ix ix', slook (flows s) x = Some ix /\ slook (flows s') x = Some ix' /\ frame_rel gone' ix ix') /\
       (forall x, In x (i_children i) -> ~ In x (i_children i') ->
-         exists ix, slook (flows s) x = Some ix /\ removable c now ix = true /\ slook (flows s') x = None) /\
+         exists ix, slook (flows s) x = Some ix /\ P x ix = true /\ slook (flows s') x = None) /\
       (forall k l' x, slook (i_scopes i') k = Some l' -> In x l' ->
          exists ix ix', slook (flows s) x = Some ix /\ slook (flows s') x = Some ix' /\ frame_rel gone' ix ix') /\
       (forall a, In a (i_actions i') -> exists act, slook (actions s) a = Some act /\ slook (actions s') a = Some act).
@@ -822,14 +838,14 @@ Section Theorems.
     assert (Res : forall x, present s x -> ~ In x rem ->
               exists ix ix', slook (flows s) x = Some ix /\ slook (flows s') x = Some ix' /\ frame_rel gone' ix ix').
     { intros x Hp Hn. unfold present in Hp. destruct (slook (flows s) x) as [ix|] eqn:Ex; [|congruence].
-      destruct (removable c now ix) eqn:E; [exfalso; apply Hn; apply (rem_spec c now s Hdict); eauto|].
+      destruct (P x ix) eqn:E; [exfalso; apply Hn; apply (rem_spec P HP s Hdict); eauto|].
       destruct (Fr x ix Ex E) as (ix' & Hx' & Hf). exists ix, ix'. auto. }
     destruct (cleanup_purged u i' Hi') as [P1 P2].
     split; [|split; [|split]].
     - intros x Hx. apply Res; [exact (C1 u i x Hi (Hsub x Hx))|exact (P1 Pc x Hx)].
     - intros x Hx Hnx. specialize (Hgone x Hx Hnx). pose proof (C1 u i x Hi Hx) as Hp. unfold present in Hp.
       destruct (slook (flows s) x) as [ix|] eqn:Ex; [|congruence]. exists ix. split; [reflexivity|]. split; [|exact Hgone].
-      destruct (removable c now ix) eqn:E; [reflexivity|]. destruct (Fr x ix Ex E) as (ix' & Hx' & _). congruence.
+      destruct (P x ix) eqn:E; [reflexivity|]. destruct (Fr x ix Ex E) as (ix' & Hx' & _). congruence.
     - intros k l' x Hl' Hx. destruct (Hsc k l' Hl') as (l0 & Hl0 & Hs2 & _).
       apply Res; [exact (C2 u i k l0 x Hi Hl0 (Hs2 x Hx))|exact (P2 Ps k l' x Hl' Hx)].
     - intros a Ha. pose proof (Fra u i' a (slook_in _ _ _ Hi') Ha) as Hn.
@@ -842,20 +858,19 @@ Section Theorems.
      the same instance; the instance differs only as the frame allows. *)
 
   Theorem cleanup_candidates (ix : index) :
-    needs_done c = true ->
     (forall name es e, slook ix name = Some es -> In e es ->
-       exists i, slook (flows s) (fst e) = Some i /\ is_done c i = false /\ slook (i_heads i) (snd e) <> None) ->
+       exists i, slook (flows s) (fst e) = Some i /\ P (fst e) i = false /\ slook (i_heads i) (snd e) <> None) ->
     forall name,
       Forall2 (fun a b => exists fu hu i i', a = Some (fu, hu, i) /\ b = Some (fu, hu, i') /\ frame_rel gone' i i')
               (candidates ix s name) (candidates ix s' name).
   Proof.
-    intros Hnd Hix name. unfold candidates. destruct (slook ix name) as [es|] eqn:E; [|constructor].
-    assert (H : forall e, In e es -> exists i, slook (flows s) (fst e) = Some i /\ is_done c i = false /\
+    intros Hix name. unfold candidates. destruct (slook ix name) as [es|] eqn:E; [|constructor].
+    assert (H : forall e, In e es -> exists i, slook (flows s) (fst e) = Some i /\ P (fst e) i = false /\
                                                slook (i_heads i) (snd e) <> None) by (intros; eapply Hix; eauto).
     clear E Hix. induction es as [|e r IH]; simpl; constructor.
     - destruct (H e (or_introl eq_refl)) as (i & Hi & Hd & Hh).
       destruct cleanup_frame as (_ & Fr & _).
-      assert (Hnr : removable c now i = false) by (unfold removable; rewrite Hnd, Hd; reflexivity).
+      pose proof Hd as Hnr.
       destruct (Fr _ _ Hi Hnr) as (i' & Hi' & Hfr).
       exists (fst e), (snd e), i, i'. unfold resolve. rewrite Hi, Hi'.
       destruct (slook (i_heads i) (snd e)) as [sc|] eqn:Eh; [|congruence].
@@ -869,8 +884,8 @@ End Theorems.
 
 (* with the constants of the unchanged source: removed => FINISHED or STOPPED, not activated,
    strictly older than the age *)
-Lemma removable_meaning age0 pc ps now i :
-  removable (mkCfg age0 true true true ["FINISHED"; "STOPPED"] pc ps) now i = true ->
+Lemma removable_meaning age0 pc ps nu now i :
+  removable (mkCfg age0 true true true ["FINISHED"; "STOPPED"] pc ps nu) now i = true ->
   (i_status i = "FINISHED" \/ i_status i = "STOPPED") /\ i_activated i = 0 /\ age0 < now - i_updated i.
 Proof.
   unfold removable, is_done, old_enough, smem. simpl. intro H.
